@@ -12,130 +12,24 @@ import (
 	"github.com/buchgr/bazel-remote/v2/zzverif/vsym"
 )
 
-// ---- independent specification of the v2 header (README / casblob docs):
-//   bytes 0..3   magic 0x184D2A50 (zstd skippable frame), little endian
-//   bytes 4..7   frame size = size of the rest of the header = 21 + 8*numOffsets
-//   bytes 8..15  logical (uncompressed) size, int64 LE
-//   byte  16     compression type: 0 identity, 1 zstandard
-//   bytes 17..20 chunk size, uint32 LE
-//   bytes 21..28 number of table entries (chunks + 1), int64 LE
-//   then the table: int64 LE file offsets of each chunk, plus the file size.
 const (
-	vMagic     = 0x184D2A50
-	vFixedPart = 29
-	vMaxSize   = int64(1) << 40
+	vMagic     = zstdimpl.VMagic
+	vFixedPart = zstdimpl.VFixedPart
+	vMaxSize   = zstdimpl.VMaxSize
 )
 
-func vPut(b []byte, at int, v uint64, n int) {
-	for i := 0; i < n; i++ {
-		b[at+i] = byte(v >> (8 * uint(i)))
-	}
-}
+type vBlob = zstdimpl.SpecBlob
 
-type vBlob struct {
-	n      int64 // logical size
-	comp   uint8
-	chunk  uint32
-	nOff   int
-	table  []int64
-	fsize  int64
-	head   []byte
-	mf     *vmodel.MFile
-	codec  *zstdimpl.VCodec
-	hdrLen int64
-}
-
-// vSpecBlob builds an arbitrary spec-conformant blob file with nOff table
-// entries. For zstandard files the chunk size is any value >= 1 (not the
-// build's default) and the number of chunks is ceil(n/chunk).
 func vSpecBlob(nOff int, comp uint8) *vBlob {
-	b := &vBlob{nOff: nOff, comp: comp}
-	b.n = vsym.Int64("n")
-	vsym.Assume(b.n > 0)
-	vsym.Assume(b.n < vMaxSize)
-	b.chunk = vsym.Uint32("chunk")
-	vsym.Assume(b.chunk >= 1)
-	b.hdrLen = int64(vFixedPart + 8*nOff)
-	b.table = make([]int64, nOff)
-	b.table[0] = b.hdrLen
-	for i := 1; i < nOff; i++ {
-		b.table[i] = vsym.Int64("off")
-		vsym.Assume(b.table[i] > b.table[i-1])
-		vsym.Assume(b.table[i] < vMaxSize)
-	}
-	b.fsize = b.table[nOff-1]
-	chunks := int64(nOff - 1)
-	if comp == 1 {
-		// chunks = ceil(n / chunk)
-		c := int64(b.chunk)
-		vsym.Assume((chunks-1)*c < b.n)
-		vsym.Assume(b.n <= chunks*c)
-	} else {
-		// identity: one chunk holding the raw bytes
-		vsym.Assume(b.fsize == b.hdrLen+b.n)
-	}
-	b.head = make([]byte, b.hdrLen)
-	vPut(b.head, 0, vMagic, 4)
-	vPut(b.head, 4, uint64(21+8*nOff), 4)
-	vPut(b.head, 8, uint64(b.n), 8)
-	b.head[16] = comp
-	vPut(b.head, 17, uint64(b.chunk), 4)
-	vPut(b.head, 21, uint64(nOff), 8)
-	for i := 0; i < nOff; i++ {
-		vPut(b.head, vFixedPart+8*i, uint64(b.table[i]), 8)
-	}
 	vmodel.ResetFS()
-	b.mf = vmodel.FS.AddFile("/cache/cas.v2/aa/blob", b.head, b.fsize)
-	b.codec = &zstdimpl.VCodec{FileID: b.mf.ID, Table: b.table, Chunk: int64(b.chunk), N: b.n}
-	return b
-}
-
-type vSeg struct {
-	src string
-	off int64
-	n   int64
-}
-
-// vDrain reads rc to EOF with a huge buffer and returns what it delivered.
-func vDrain(rc io.Reader, maxReads int) ([]vSeg, error) {
-	var segs []vSeg
-	for i := 0; i < maxReads; i++ {
-		buf := vsym.MakeBytes(vmodel.CopyBuf)
-		n, err := rc.Read(buf)
-		if n > 0 {
-			s, off, ok := vsym.Prov(buf[:n])
-			if !ok {
-				s = "?"
-			}
-			segs = append(segs, vSeg{s, off, int64(n)})
-		}
-		if err == io.EOF {
-			return segs, nil
-		}
-		if err != nil {
-			return segs, err
-		}
-	}
-	vsym.Stop("reader did not reach EOF within the read bound")
-	return nil, nil
-}
-
-// vAssertRange: the segments are exactly bytes [off, off+n) of source src.
-func vAssertRange(segs []vSeg, src string, off, n int64, tag string) {
-	pos := off
-	for _, s := range segs {
-		vsym.Assert(s.src == src, tag+"/bytes-from-the-right-source")
-		vsym.Assert(s.off == pos, tag+"/bytes-contiguous-from-offset")
-		pos += s.n
-	}
-	vsym.Assert(pos == off+n, tag+"/delivers-exactly-the-rest-of-the-blob")
+	return zstdimpl.NewSpecBlob("/cache/cas.v2/aa/blob", nOff, comp, nil)
 }
 
 func vExpected(b *vBlob) int64 {
 	if vsym.Choose("sizeKnown", 2) == 0 {
 		return -1
 	}
-	return b.n
+	return b.N
 }
 
 // ---- GetUncompressedReadCloser on zstandard files
@@ -145,28 +39,28 @@ func vReadUncompressed(maxOff int) {
 	b := vSpecBlob(nOff, 1)
 	off := vsym.Int64("offset")
 	vsym.Assume(off >= 0)
-	vsym.Assume(off < b.n)
+	vsym.Assume(off < b.N)
 	exp := vExpected(b)
-	f := vmodel.FS.OpenHandle(b.mf)
+	f := vmodel.FS.OpenHandle(b.MF)
 
-	rc, err := GetUncompressedReadCloser(b.codec, f, exp, off)
+	rc, err := GetUncompressedReadCloser(b.Codec, f, exp, off)
 
 	vsym.Assert(err == nil, "C02/uncompressed-read-of-conformant-file-succeeds")
 	if err != nil {
 		return
 	}
 	vsym.Reach("uncompressed-read-ok")
-	segs, rerr := vDrain(rc, 4)
+	segs, rerr := zstdimpl.Drain(rc, 4)
 	vsym.Assert(rerr == nil, "C02/uncompressed-stream-has-no-error")
-	vsym.Assert(len(b.codec.Bad) == 0, "C02/codec-fed-only-whole-frames-from-a-frame-boundary")
-	vAssertRange(segs, b.codec.Logical(), off, b.n-off, "C02/uncompressed")
+	vsym.Assert(len(b.Codec.Bad) == 0, "C02/codec-fed-only-whole-frames-from-a-frame-boundary")
+	zstdimpl.AssertRange(segs, b.Codec.Logical(), off, b.N-off, "C02/uncompressed")
 	if len(segs) > 1 {
 		vsym.Reach("uncompressed-read-first-chunk-plus-stream")
 	}
 	cerr := rc.Close()
 	vsym.Assert(cerr == nil, "C14/close-ok")
 	vsym.Assert(vmodel.FS.OpenCount == 0, "C14/no-open-file-after-close")
-	vsym.Assert(b.codec.OpenDecs == 0, "C14/no-open-decoder-after-close")
+	vsym.Assert(b.Codec.OpenDecs == 0, "C14/no-open-decoder-after-close")
 }
 
 func VerifReadUncompressed4() { vReadUncompressed(4) }
@@ -181,61 +75,20 @@ func vReadZstd(maxOff int) {
 	b := vSpecBlob(nOff, 1)
 	off := vsym.Int64("offset")
 	vsym.Assume(off >= 0)
-	vsym.Assume(off < b.n)
+	vsym.Assume(off < b.N)
 	exp := vExpected(b)
-	f := vmodel.FS.OpenHandle(b.mf)
+	f := vmodel.FS.OpenHandle(b.MF)
 
-	rc, err := GetZstdReadCloser(b.codec, f, exp, off)
+	rc, err := GetZstdReadCloser(b.Codec, f, exp, off)
 
 	vsym.Assert(err == nil, "C02/zstd-read-of-conformant-file-succeeds")
 	if err != nil {
 		return
 	}
 	vsym.Reach("zstd-read-ok")
-	segs, rerr := vDrain(rc, 4)
+	segs, rerr := zstdimpl.Drain(rc, 4)
 	vsym.Assert(rerr == nil, "C02/zstd-stream-has-no-error")
-	c := int64(b.chunk)
-	// decode the delivered stream with the contract: logical position reached
-	pos := off
-	for si, s := range segs {
-		if s.src == b.mf.ID {
-			// bytes of the file: must start at the header (only when offset==0)
-			// or at the frame boundary of chunk pos/c, with pos on a chunk edge,
-			// and run to the end of the file.
-			vsym.Assert(si == len(segs)-1, "C02/zstd-file-tail-is-last")
-			vsym.Assert(s.off+s.n == b.fsize, "C02/zstd-file-tail-runs-to-end-of-file")
-			if s.off == 0 {
-				vsym.Reach("zstd-read-whole-file-with-header")
-				vsym.Assert(pos == 0, "C02/zstd-header-only-at-offset-0")
-			} else {
-				vsym.Assert(pos%c == 0, "C02/zstd-tail-starts-on-chunk-edge")
-				k := pos / c
-				vsym.Assert(k < int64(nOff-1), "C02/zstd-tail-chunk-exists")
-				if k < int64(nOff-1) {
-					vsym.Assert(s.off == b.table[k], "C02/zstd-tail-starts-at-frame-of-that-chunk")
-				}
-			}
-			pos = b.n
-		} else {
-			// a re-encoded piece: must encode exactly [pos, end of that chunk)
-			ok := len(b.codec.Encs) == 1 && s.src == "enc0" && si == 0
-			vsym.Assert(ok, "C02/zstd-first-piece-is-the-one-reencoded-frame")
-			if ok {
-				vsym.Reach("zstd-read-recompressed-first-chunk")
-				e := b.codec.Encs[0]
-				vsym.Assert(e.Known && e.Src == b.codec.Logical(), "C02/zstd-reencoded-bytes-come-from-the-decoded-chunk")
-				vsym.Assert(e.SrcOff == pos, "C02/zstd-reencoded-piece-starts-at-offset")
-				vsym.Assert(s.off == 0 && s.n == e.Len, "C02/zstd-reencoded-frame-delivered-whole")
-				k := pos / c
-				end := (k + 1) * c
-				end = vsym.Ite64(end > b.n, b.n, end)
-				vsym.Assert(e.SrcOff+e.SrcLen == end, "C02/zstd-reencoded-piece-ends-at-chunk-end")
-				pos = end
-			}
-		}
-	}
-	vsym.Assert(pos == b.n, "C02/zstd-stream-decodes-to-the-rest-of-the-blob")
-	vsym.Assert(len(b.codec.Bad) == 0, "C02/codec-fed-only-whole-frames")
+	zstdimpl.AssertZstdStream(b, b.Codec, segs, off, "C02")
 	cerr := rc.Close()
 	vsym.Assert(cerr == nil, "C14/close-ok")
 	vsym.Assert(vmodel.FS.OpenCount == 0, "C14/no-open-file-after-close")
@@ -251,18 +104,18 @@ func VerifReadIdentity() {
 	b := vSpecBlob(2, 0)
 	off := vsym.Int64("offset")
 	vsym.Assume(off >= 0)
-	vsym.Assume(off < b.n)
+	vsym.Assume(off < b.N)
 	exp := vExpected(b)
-	f := vmodel.FS.OpenHandle(b.mf)
-	rc, err := GetUncompressedReadCloser(b.codec, f, exp, off)
+	f := vmodel.FS.OpenHandle(b.MF)
+	rc, err := GetUncompressedReadCloser(b.Codec, f, exp, off)
 	vsym.Assert(err == nil, "C02/identity-read-succeeds")
 	if err != nil {
 		return
 	}
 	vsym.Reach("identity-read-ok")
-	segs, rerr := vDrain(rc, 3)
+	segs, rerr := zstdimpl.Drain(rc, 3)
 	vsym.Assert(rerr == nil, "C02/identity-stream-has-no-error")
-	vAssertRange(segs, b.mf.ID, b.hdrLen+off, b.n-off, "C02/identity")
+	zstdimpl.AssertRange(segs, b.MF.ID, b.HdrLen+off, b.N-off, "C02/identity")
 	_ = rc.Close()
 	vsym.Assert(vmodel.FS.OpenCount == 0, "C14/no-open-file-after-close")
 }
@@ -273,14 +126,14 @@ func VerifReadWrongSize() {
 	b := vSpecBlob(3, 1)
 	exp := vsym.Int64("expected")
 	vsym.Assume(exp != -1)
-	vsym.Assume(exp != b.n)
-	f := vmodel.FS.OpenHandle(b.mf)
+	vsym.Assume(exp != b.N)
+	f := vmodel.FS.OpenHandle(b.MF)
 	var rc io.ReadCloser
 	var err error
 	if vsym.Choose("which", 2) == 0 {
-		rc, err = GetUncompressedReadCloser(b.codec, f, exp, 0)
+		rc, err = GetUncompressedReadCloser(b.Codec, f, exp, 0)
 	} else {
-		rc, err = GetZstdReadCloser(b.codec, f, exp, 0)
+		rc, err = GetZstdReadCloser(b.Codec, f, exp, 0)
 	}
 	vsym.Reach("wrong-size")
 	vsym.Assert(err != nil, "C02/size-mismatch-is-an-error")
